@@ -161,7 +161,8 @@ class Vertex(base.BaseObject):
         if args in self.__qa_nb_cache:
             self._CACHE_STATS[self.uid][0] += 1
 
-            return self.__qa_nb_cache[args]
+            # hand out a copy: the caller owns what neighbors() returns
+            return list(self.__qa_nb_cache[args])
 
         self._CACHE_STATS[self.uid][1] += 1
         return self._QA_NB_INVALID
@@ -199,7 +200,8 @@ class Vertex(base.BaseObject):
         if not self.NEIGHBOR_CACHING:
             return
         self._CACHE_STATS[self.uid][3] += 1
-        self.__qa_nb_cache[args] = answer
+        # keep our own copy: the caller goes on owning ``answer``
+        self.__qa_nb_cache[args] = list(answer)
 
     def add_to_link(self, link: Link):
         """
